@@ -81,7 +81,6 @@ type vC15Node struct {
 	lastReg   vObj // projection of the registry this node read last
 	lastKind  string
 	lastDB    string
-	lastAt    time.Time
 	waitFrom  time.Time
 	bc        *bootstrapContext
 }
@@ -250,6 +249,12 @@ func (nd *vC15Node) step(kind string, db string, val vObj, isWrite bool, f func(
 		<-req.granted
 		defer close(req.done)
 	}
+	if c.gated && kind == "Rc" && nd.lastKind == "Rc" && nd.lastDB == db && !nd.dead {
+		// second read of a wait loop: make sure configRetryTimeout has elapsed, so that the loop gives up right after it
+		if d := time.Until(nd.waitFrom.Add(c.timeout + 3*time.Millisecond)); d > 0 {
+			time.Sleep(d)
+		}
+	}
 	c.mu.Lock()
 	defer c.mu.Unlock()
 	nd.ops++
@@ -281,6 +286,7 @@ func (nd *vC15Node) step(kind string, db string, val vObj, isWrite bool, f func(
 		return err
 	} else {
 		nd.lastKind, nd.lastDB = kind, db
+		nd.waitFrom = time.Now()
 	}
 	c.nSt++
 	reg, cfg := c.snapshot()
@@ -679,7 +685,9 @@ func TestVerif_C15_ConfigRegistry(t *testing.T) {
 				}
 				if h {
 					hung = true
-					ctl.emit(vObj{"a": "Hang", "n": op.N, "op": op.String(), "attempt": attempt})
+					if attempt > 0 {
+						ctl.emit(vObj{"a": "Hang", "n": op.N, "op": op.String()})
+					}
 					break
 				}
 				_ = res
@@ -756,11 +764,132 @@ func vC15IndexPath() string { return os.Getenv("VERIF_C15_INDEX") }
 func writeFileC15(p string, b []byte) error { return os.WriteFile(p, b, 0644) }
 
 // ---------------------------------------------------------------------------------------------------------------
-// (2) two-node race replay: see below
+// (2) two-node race replay: a schedule (from a TLC behaviour of the two-node model) is forced through the gates.
+// Schedule entries: {a:"Start", n, t, db, colls} | {a:"Step", n} (node n performs its next storage operation,
+// whatever it is) | {a:"Crash", n}.  What the real code does at each step is recorded, not prescribed: conformance with
+// the behaviour is judged afterwards by TLC (pass C).  The only timing rule: the second read of a wait loop is held
+// until configRetryTimeout has certainly elapsed, so that "read again, then give up" is one deterministic step.
+
 type vC15Race struct {
-	ID    string `json:"id"`
-	Steps []vObj `json:"steps"`
+	ID    string      `json:"id"`
+	Steps []vC15RStep `json:"steps"`
+}
+
+type vC15RStep struct {
+	A     string   `json:"a"`
+	N     int      `json:"n"`
+	T     string   `json:"t"`
+	DB    string   `json:"db"`
+	Colls []string `json:"colls"`
+}
+
+type vC15Sched struct {
+	s       *vC15Scenario
+	pending map[int]*vC15Req
+	running map[int]bool
+	fin     chan int
+	bound   time.Duration
+	hung    bool
+}
+
+// await blocks until node n is quiescent: it has posted its next storage request, or its call has returned.
+func (q *vC15Sched) await(n int) {
+	deadline := time.After(q.bound)
+	for q.running[n] && q.pending[n] == nil && !q.hung {
+		select {
+		case r := <-q.s.ctl.reqs:
+			q.pending[r.n] = r
+		case m := <-q.fin:
+			q.running[m] = false
+		case <-deadline:
+			q.hung = true
+		}
+	}
+}
+
+// grant lets node n perform the storage operation it is waiting to do, and waits until it is quiescent again.
+func (q *vC15Sched) grant(n int) {
+	r := q.pending[n]
+	if r == nil {
+		return
+	}
+	q.pending[n] = nil
+	close(r.granted)
+	<-r.done
+	q.await(n)
+}
+
+func (q *vC15Sched) drain(n int) {
+	for q.running[n] && !q.hung {
+		q.await(n)
+		q.grant(n)
+	}
 }
 
 func vC15RunRaces(t *testing.T, ctl *vC15Ctl, ds vC15RawStore, races []vC15Race, bound time.Duration, index *[]vObj) {
+	for _, rc := range races {
+		for attempt := 0; attempt < 2; attempt++ {
+			ctl.gated = false
+			s := ctl.reset(ds, "race/"+rc.ID, "race")
+			ctl.reqs = make(chan *vC15Req, 16)
+			ctl.gated = true
+			q := &vC15Sched{s: s, pending: map[int]*vC15Req{}, running: map[int]bool{}, fin: make(chan int, 16), bound: bound}
+			for _, st := range rc.Steps {
+				if q.hung {
+					break
+				}
+				switch st.A {
+				case "Start":
+					if q.running[st.N] {
+						continue // the real call is still running although the behaviour thought it over: not forced
+					}
+					if nd, ok := s.nodes[st.N]; ok && nd.dead {
+						delete(s.nodes, st.N)
+					}
+					q.running[st.N] = true
+					op := vC15Op{N: st.N, T: st.T, DB: st.DB, Colls: st.Colls}
+					if op.DB == "-" {
+						op.DB = ""
+					}
+					go func() {
+						s.call(op)
+						q.fin <- op.N
+					}()
+					q.await(st.N)
+				case "Step":
+					if q.running[st.N] {
+						q.await(st.N)
+						q.grant(st.N)
+					}
+				case "Crash":
+					if q.running[st.N] {
+						nd := s.node(st.N)
+						ctl.mu.Lock()
+						if !nd.dead {
+							nd.dead = true
+							ctl.emit(vObj{"a": "Crash", "n": st.N})
+						}
+						ctl.mu.Unlock()
+						q.drain(st.N)
+					}
+				}
+			}
+			for _, n := range []int{1, 2} {
+				q.drain(n)
+			}
+			ctl.gated = false
+			if q.hung {
+				if attempt == 0 {
+					time.Sleep(200 * time.Millisecond)
+					continue
+				}
+				ctl.emit(vObj{"a": "Hang", "n": 0})
+			} else if len(rc.Steps) > 0 {
+				// the survivor's view afterwards
+				s.call(vC15Op{N: 3, T: "L"})
+			}
+			*index = append(*index, vObj{"id": "race/" + rc.ID, "hung": q.hung})
+			break
+		}
+	}
 }
